@@ -28,8 +28,8 @@ def _close_ns(ns: List[str]) -> str:
 
 def _ret_type(m: M) -> str:
     if m.kind in ("num", "echo"):
-        if m.enum:
-            return _q(m.enum_cpp)  # type: ignore
+        if m.enum and m.kind == "num":
+            return _q(m.enum.replace(".", "::"))
         return CT.get(m.ctype, m.ctype)
     if m.kind == "obj":
         t = _q(m.cls)
@@ -53,7 +53,10 @@ def _ret_type(m: M) -> str:
 def _arg_decl(args) -> str:
     out = []
     for i, a in enumerate(args):
-        t = {"double": "double", "int": "int", "bool": "bool", "str": "const std::string&"}[a]
+        if a.startswith("enum:"):
+            t = _q(a[5:].replace(".", "::"))
+        else:
+            t = {"double": "double", "int": "int", "bool": "bool", "str": "const std::string&"}[a]
         out.append(f"{t} a{i}")
     return ", ".join(out)
 
@@ -61,6 +64,8 @@ def _arg_decl(args) -> str:
 def _body(c: C, m: M) -> str:
     n = m.name
     if m.kind == "num":
+        if m.enum:
+            return f'return ({_q(m.enum.replace(".", "::"))})(int)vf_num("{n}","{n}");'
         if m.ctype == "bool":
             return f'return vf_num("{n}","{n}") != 0;'
         return f'return ({CT.get(m.ctype, m.ctype)})vf_num("{n}","{n}");'
@@ -68,6 +73,8 @@ def _body(c: C, m: M) -> str:
         pre = f'if (vf_null("{n}")) return 0; '
         if m.echo == "id":
             return pre + "return (double)a0;"
+        if m.echo == "enum10":
+            return pre + "return (double)((int)a0 * 10 + 1);"
         if m.echo == "len":
             return pre + "return (double)a0.size();"
         if m.echo == "byte":
@@ -112,35 +119,61 @@ def _model(schema: Schema, extra_cpp: str = ""):
     o = ["// generated - model of " + schema.name, "#pragma once", f'#include "{fw}"', "#include <numeric>", ""]
     src = ['#include "vf_model.h"', '#include "vf_runtime.cpp"', "namespace vfm {"]
     o.append("namespace vfm {")
+    # namespace level enums
+    for e in schema.enums:
+        if e.in_class is None:
+            ns = e.ns.split(".")
+            o.append(f"{_open_ns(ns)}enum {e.name} {{ {', '.join(e.values)} }}; {_close_ns(ns)}")
     # forward declarations
     for c in schema.classes.values():
         ns, n = _ns_split(c.name)
-        o.append(f"{_open_ns(ns)}class {n}; {_close_ns(ns)}")
-    # class definitions
-    for c in schema.classes.values():
-        ns, n = _ns_split(c.name)
+        o.append(f"{_open_ns(ns)}class {n}; class {n}__in1; class {n}__in2; {_close_ns(ns)}")
+
+    def emit_class(cname, n, ns, methods, extra_members=""):
         o.append(_open_ns(ns))
         o.append(f"class {n} : public vf::Handle {{ public:")
-        members = [m for m in c.methods if m.member]
+        members = [m for m in methods if m.member]
         init = "".join(
             f', {m.name}(d && !d->is_null && d->num.count("{m.name}") ? ({CT.get(m.ctype, m.ctype)})d->num.at("{m.name}") : 0)' for m in members
         )
         o.append(f"  explicit {n}(const vf::ObjData* d = nullptr) : vf::Handle(d){init} {{}}")
-        for m in c.methods:
+        if extra_members:
+            o.append(extra_members)
+        for m in methods:
             if m.member:
                 o.append(f"  {CT.get(m.ctype, m.ctype)} {m.name};")
             else:
                 o.append(f"  {_ret_type(m)} {m.name}({_arg_decl(m.args)}) const;")
-        if c.name in ("xAOD::Jet",):
+        if cname in ("xAOD::Jet",):
             o.append("  template <class T> T getAttribute(const std::string& name) const;")
         o.append("};")
         o.append(_close_ns(ns))
-    # method bodies
+        for m in methods:
+            if not m.member:
+                src.append(f"{_ret_type(m)} {'::'.join(ns + [n])}::{m.name}({_arg_decl(m.args)}) const {{ {_body(None, m)} }}")
+
+    # class definitions (methods declared with deref_count d live behind d smart-pointer dereferences)
     for c in schema.classes.values():
-        for m in c.methods:
-            if m.member:
-                continue
-            src.append(f"{_ret_type(m)} {c.name}::{m.name}({_arg_decl(m.args)}) const {{ {_body(c, m)} }}")
+        ns, n = _ns_split(c.name)
+        m0 = [m for m in c.methods if m.deref == 0]
+        m1 = [m for m in c.methods if m.deref == 1]
+        m2 = [m for m in c.methods if m.deref == 2]
+        extra = ""
+        for e in schema.enums:
+            if e.in_class == c.name:
+                extra += f"  enum {e.name} {{ {', '.join(e.values)} }};\n"
+        q = _q(c.name)
+        if m1:
+            extra += f"  const {q}__in1* operator->() const;\n"
+            src.append(f"const {q}__in1* {c.name}::operator->() const {{ return vf::arena_new<{q}__in1>(d_); }}")
+        if m2:
+            extra += f"  const {q}__in2* operator*() const;\n"
+            src.append(f"const {q}__in2* {c.name}::operator*() const {{ return vf::arena_new<{q}__in2>(d_); }}")
+        emit_class(c.name, n, ns, m0, extra)
+        if m1:
+            emit_class(None, n + "__in1", ns, m1)
+        if m2:
+            emit_class(None, n + "__in2", ns, m2)
         if c.name == "xAOD::Jet":
             o.append("template <> float xAOD::Jet::getAttribute<float>(const std::string& name) const;")
             o.append("template <> std::vector<double> xAOD::Jet::getAttribute<std::vector<double>>(const std::string& name) const;")
@@ -250,6 +283,11 @@ def write_include_tree(schema: Schema, incdir: str):
             cur = files.get(hpath, "#pragma once\n")
             if i == 0:
                 cur += _using(names)
+                for e in getattr(schema, "enums", []):
+                    if e.in_class is None:
+                        ns = e.ns.split(".")
+                        inner = " ".join(f"using ::vfm::{'::'.join(ns)}::{x};" for x in (e.name,) + tuple(e.values))
+                        cur += f"{_open_ns(ns)}{inner} {_close_ns(ns)}\n"
             files[hpath] = cur
     files.setdefault("vf_extra_a.h", "#pragma once\n#define VF_EXTRA_A 1\n")
     files.setdefault("vf_extra_b.h", "#pragma once\n#define VF_EXTRA_B 1\n")
